@@ -21,6 +21,16 @@ func UnmarshalJSON(src io.Reader) (Canonicalable, error) {
 	if err != nil {
 		return nil, err
 	}
+	if res == nil {
+		return nil, errors.New("unexpected end of JSON input")
+	}
+	// ensure there is nothing left after the top-level value
+	if _, err := dec.Token(); err != io.EOF {
+		if err != nil {
+			return nil, err
+		}
+		return nil, errors.New("unexpected data after top-level value")
+	}
 
 	return res, nil
 }
@@ -48,7 +58,7 @@ func CanonicalJSON(src io.Reader) ([]byte, error) {
 func handleNextToken(dec *json.Decoder) (Canonicalable, error) {
 	t, err := dec.Token()
 	if err == io.EOF {
-		return nil, nil
+		return nil, io.ErrUnexpectedEOF
 	}
 	if err != nil {
 		return nil, err
